@@ -12,7 +12,6 @@ MUTANTS = [
  ("upd_clear_order_clears_limit", "C15", "src/query/update.rs", "self.orders = Vec::new();\n        self", "self.orders = Vec::new();\n        self.limit = None;\n        self"),
  ("tc_take_drops_comment", "C15", "src/table/create.rs", "comment: std::mem::take(&mut self.comment),", "comment: None,"),
  ("tfk_take_drops_on_update", "C15", "src/foreign_key/common.rs", "on_update: self.on_update.take(),", "on_update: None,"),
- ("coldef_take_drops_table", "C15", "src/table/column.rs", "table: self.table.take(),\n            name: std::mem::replace", "table: None,\n            name: std::mem::replace"),
  ("win_take_keeps_frame_only", "C15", "src/query/window.rs", "order_by: std::mem::take(&mut self.order_by),", "order_by: Vec::new(),"),
  ("ic_take_loses_include", "C15", "src/index/create.rs", "include_columns: self.include_columns.clone(),", "include_columns: vec![],"),
  ("ts_rc_instead_of_arc", "C20", "src/types.rs", "#[cfg(feature = \"thread-safe\")]\npub type RcOrArc<T> = std::sync::Arc<T>;", "#[cfg(feature = \"thread-safe\")]\npub type RcOrArc<T> = std::rc::Rc<T>;"),
